@@ -503,6 +503,82 @@ Proof.
   unfold mv, vadd. simpl. repeat f_equal; lra.
 Qed.
 
+(* ---- AddJitterOp's search (every carrier N, every matrix size, 1 x 1 included), with the Cholesky test [ok]
+   and the upper-bound test [within] as oracles: the result is K + sigsq_final * Id built from the ORIGINAL K
+   (by c08_jitter_diagonal_only only the diagonal differs from K), sigsq_final = sigsq + the k-th jitter of
+   0, j0, j0 g, j0 g^2, ..., it passes the test, and every earlier jitter of the sequence was tried and failed *)
+Theorem c08_add_jitter_contract :
+  forall (N : Num) (ok : mat N -> bool) (within : T N -> bool) (K : mat N) (sigsq j0 growth : T N) fuel A s,
+    add_jitter N ok within K sigsq j0 growth fuel = Some (A, s) ->
+    exists k, s = add N sigsq (jseq N j0 growth k) /\ A = add_diag N K s /\ ok A = true /\
+              within (jseq N j0 growth k) = true /\
+              forall i, (i < k)%nat ->
+                ok (add_diag N K (add N sigsq (jseq N j0 growth i))) = false /\ within (jseq N j0 growth i) = true.
+Proof. exact add_jitter_spec. Qed.
+Print Assumptions c08_add_jitter_contract.
+
+Theorem c08_add_jitter_none_needed :
+  forall (N : Num) (ok : mat N -> bool) (within : T N -> bool) (K : mat N) (sigsq j0 growth : T N) fuel,
+    within (zero N) = true -> ok (add_diag N K (add N sigsq (zero N))) = true ->
+    add_jitter N ok within K sigsq j0 growth fuel =
+    Some (add_diag N K (add N sigsq (zero N)), add N sigsq (zero N)).
+Proof. exact add_jitter_no_jitter. Qed.
+Print Assumptions c08_add_jitter_none_needed.
+
+(* non-vacuity: a 1 x 1 matrix [[0]] with the test "diagonal entry >= 1/2": 0 and 1/4 fail, 1/2 passes *)
+Example c08_add_jitter_example :
+  let ok := fun A : list (list R) => if Rle_dec (/ 2) (nth 0 (nth 0 A []) 0) then true else false in
+  add_jitter NumR ok (fun _ => true) [[0]] 0 (/ 4) 2 5 = Some ([[/ 2]], / 2).
+Proof.
+  cbv zeta. unfold add_jitter, add_diag. simpl.
+  destruct (Rle_dec (/ 2) (0 + (0 + 0))) as [H|_]; [exfalso; lra|].
+  destruct (Rle_dec (/ 2) (0 + (0 + / 4))) as [H|_]; [exfalso; lra|].
+  destruct (Rle_dec (/ 2) (0 + (0 + / 4 * 2))) as [_|H]; [|exfalso; lra].
+  replace (0 + / 4 * 2) with (/ 2) by lra. unfold add_diag. simpl. repeat f_equal. lra.
+Qed.
+
+(* ---- the MCMC surrogate keeps one posterior state per retained hyper-parameter sample (every carrier): state i
+   carries sample i's parameters and is gp_post(sample i, data) -- states do not share parameters -- and its
+   predictions are those of a single model with sample i's parameters (so c08_model_predict_dense applies to each) *)
+Theorem c08_mcmc_states_own_parameters :
+  forall (N : Num) (jit : T N) (samples : list (gparams N)) (d : gdata N) i (p0 : gparams N),
+    (i < length samples)%nat ->
+    let m := nth i (mcmc_states N jit samples d) (mkGM N p0 None) in
+    gm_params N m = nth i samples p0 /\
+    gm_state N m = Some (d, gp_post N jit (nth i samples p0) d) /\
+    Fresh N jit m.
+Proof. exact mcmc_states_nth. Qed.
+Print Assumptions c08_mcmc_states_own_parameters.
+
+Theorem c08_mcmc_predict_per_sample :
+  forall (N : Num) (jit floor : T N) (samples : list (gparams N)) (d : gdata N) (Xt : list (vec N)) i (p0 : gparams N),
+    (i < length samples)%nat ->
+    nth i (mcmc_predict N jit floor (mcmc_states N jit samples d) Xt) None =
+    gpredict N jit floor (mkGM N (nth i samples p0) (Some (d, gp_post N jit (nth i samples p0) d))) Xt.
+Proof. exact mcmc_predict_nth. Qed.
+Print Assumptions c08_mcmc_predict_per_sample.
+
+Example c08_mcmc_example :
+  let p1 := mkGP NumR [1] 1 0 1 in let p2 := mkGP NumR [2] 3 (/ 2) (/ 4) in
+  let d := mkGD NumR [[0]; [1]] [1; 2] in
+  length (mcmc_states NumR 0 [p1; p2] d) = 2%nat /\
+  gm_params NumR (nth 1 (mcmc_states NumR 0 [p1; p2] d) (mkGM NumR p1 None)) = p2 /\
+  Fresh NumR 0 (nth 0 (mcmc_states NumR 0 [p1; p2] d) (mkGM NumR p1 None)).
+Proof.
+  cbv zeta. split; [reflexivity|]. split; [reflexivity|].
+  exact (proj2 (proj2 (c08_mcmc_states_own_parameters NumR 0 _ _ 0%nat (mkGP NumR [1] 1 0 1) (Nat.lt_0_succ 1)))).
+Qed.
+
+(* ---- fantasy matrices through the state: the factor does not depend on the targets and column j of the
+   m-column state is the 1-column state on target column j (a 1-D target vector is the m = 1 case) *)
+Theorem c08_fantasy_state_columns :
+  forall (N : Num) (K : mat N) (s : T N) (Y : list (vec N)) (mvec : vec N) j, (j < length Y)%nat ->
+    fst (cholesky_computations N K s Y mvec) = fst (cholesky_computations N K s [nth j Y []] mvec) /\
+    nth j (snd (cholesky_computations N K s Y mvec)) [] =
+      hd [] (snd (cholesky_computations N K s [nth j Y []] mvec)).
+Proof. exact cholesky_computations_columns. Qed.
+Print Assumptions c08_fantasy_state_columns.
+
 (* non-vacuity of the warping theorems: two blocks on the non-contiguous ranges (0,1) and (2,3) are
    pairwise disjoint, and coordinate 2 of a 3-vector is transformed by the second block only *)
 Example c08_warp_example :
